@@ -56,9 +56,9 @@ class KademliaRPC:
         return b'pong'
 
     def store(self, rpc_contact: 'KademliaPeer', blob_hash: bytes, token: bytes, port: int) -> bytes:
-        if len(blob_hash) != constants.HASH_BITS // 8:
-            raise ValueError(f"invalid length of blob hash: {len(blob_hash)}")
-        if not 0 < port < 65535:
+        if not isinstance(blob_hash, bytes) or len(blob_hash) != constants.HASH_BITS // 8:
+            raise ValueError("invalid blob hash")
+        if not isinstance(port, int) or not 0 < port < 65535:
             raise ValueError(f"invalid tcp port: {port}")
         if not self.verify_token(token, rpc_contact.compact_ip()):
             if self.loop.time() - self.protocol.started_listening_time < constants.TOKEN_SECRET_REFRESH_INTERVAL:
@@ -73,8 +73,8 @@ class KademliaRPC:
         return b'OK'
 
     def find_node(self, rpc_contact: 'KademliaPeer', key: bytes) -> typing.List[typing.Tuple[bytes, str, int]]:
-        if len(key) != constants.HASH_LENGTH:
-            raise ValueError("invalid contact node_id length: %i" % len(key))
+        if not isinstance(key, bytes) or len(key) != constants.HASH_LENGTH:
+            raise ValueError("invalid contact node_id")
 
         contacts = self.protocol.routing_table.find_close_peers(key, sender_node_id=rpc_contact.node_id)
         contact_triples = []
@@ -85,8 +85,8 @@ class KademliaRPC:
     def find_value(self, rpc_contact: 'KademliaPeer', key: bytes, page: int = 0):
         page = page if page > 0 else 0
 
-        if len(key) != constants.HASH_LENGTH:
-            raise ValueError("invalid blob_exchange hash length: %i" % len(key))
+        if not isinstance(key, bytes) or len(key) != constants.HASH_LENGTH:
+            raise ValueError("invalid blob_exchange hash")
 
         response = {
             b'token': self.make_token(rpc_contact.compact_ip()),
